@@ -27,7 +27,8 @@ def generate(rng, tier):
         runs = []
         for _ in range(rng.choice([1, 1, 2])):
             runs.append(dict(kind="record", enabled=rng.random() < 0.9, prm=rd.rand_prm(rng),
-                             op=rd.rand_opdef(rng, W, budget=rng.choice([6, 10, 16])), save_fails=rng.random() < 0.15))
+                             op=rd.rand_opdef(rng, W, budget=rng.choice([6, 10, 16])), save_fails=rng.random() < 0.15,
+                             in_handler=rng.random() < 0.15))
         cases.append(dict(draws=rd.rand_draws(rng), runs=runs, cassette="memory"))
     return cases
 
